@@ -29,9 +29,10 @@ def check(ctx):
     ctx.assumptions += [
         "clock: younger_than/older_than answers are inputs of the model; the implementation is run in regimes where they are "
         "constant (0 or 10^9 seconds); theorems quantify over all answers",
-        "file system: files keyed by path, atomic rename, rename onto a non-empty directory fails, files opened without "
-        "truncation (as commons::file does); torn writes inside one file are not modelled (such files are not yet named by "
-        "the notification)",
+        "file system: files keyed by path, atomic rename, rename onto a non-empty directory fails, files truncated when "
+        "created (commons::file since fix 4ab08295; the non-truncating behaviour of the pinned tree is kept in the Pinned "
+        "definitions for the counter-models); torn writes inside one file are not modelled (such files are not yet named "
+        "by the notification)",
         "cut points are enumerated on the implementation per generated write (fault hook before every mutation); for all "
         "writes they are covered by the theorems over the model's mutation plans",
         "a client compares URIs like rpki-rs (scheme and authority case-insensitively)",
@@ -49,11 +50,12 @@ MANIFEST = {
             "both truncations, find_deltas_truncate_age over arbitrary clock answers), of update_rrdp_files and RsyncdStore::write "
             "as plans of file-system mutations over abstract file systems (non-truncating writes, rename semantics), and of a "
             "strict RFC 8182 client: serial_plus_one, session_changes_only_on_reset, deltas_contiguous (invariant over every "
-            "history), deltas_le_max_partial (with the exact side conditions; the unconditional bound is refuted by witnesses), "
-            "snapshot_is_state, client_catches_up (from the snapshot of any earlier state of the session, by induction over the "
-            "history), notification_consistent_at_every_cut (every accepted prefix of the mutation plan, clean-up in any order), "
-            "rsync_equals_snapshot, rsync_write_after_any_cut_partial and old_left_behind_blocks_all_writes; the failing "
-            "statements are proved in negated form with witnesses that replay on the implementation (recorded findings). Tied "
+            "history), deltas_le_max_partial (with the exact side conditions; the unconditional bound is refuted by witnesses - open finding "
+            "F-C11-2), snapshot_is_state, client_catches_up (from the snapshot of any earlier state of the session, by induction "
+            "over the history), notification_consistent_at_every_cut (every accepted prefix of the mutation plan, clean-up in any "
+            "order, nothing assumed about left-over files), rsync_equals_snapshot (on any content of the rsync directory) and "
+            "rsync_write_after_any_cut (every cut); the behaviour of the pinned tree before the fixes 5d860534, 4ab08295, 8d070115, "
+            "bf93c0cb is kept as counter-models (pinned_*). Tied "
             "to the code by lock-step differential execution incl. the mutation log and the files on disk, with a fault hook "
             "that cuts a write before its k-th mutation.",
     "note": "Kernel-checked theorems are about the model. The crash half is partial by nature: cuts are enumerated on the "
